@@ -22,7 +22,7 @@ from litex.soc.interconnect.csr_eventmanager import EventManager, EventSourceLev
 from fsmc.design import Design, MachineryError
 
 HANG_CYCLES = 3000     # a bus access that is not terminated after that many cycles is a hang
-CONFORM_EVERY = 97     # every k-th clock edge of the fast stepper is re-executed on the real Evaluator
+CONFORM_EVERY = 193    # every k-th clock edge of the fast stepper is re-executed on the real Evaluator
 
 
 # ------------------------------------------------------------------------------------------------------------------
@@ -93,7 +93,9 @@ MENUS = {
                                     ("stf", "f40", [("ha", 4, 0), ("hb", 8, 28), ("hc", 2, 38)]),
                                     ("rof", "g32", [("ia", 1, 0), ("ib", 6, 9), ("ic", 4, 28)]),
                                     ("rof", "g12", [("ja", 3, 0), ("jb", 5, 7)]),
-                                    ("const", "k0", 0x1234), ("const", "k1", 7)], None, None, None)],
+                                    ("const", "k0", 0x1234), ("const", "k1", 7)], None, None, None),
+                            # a second bank: the interloper of the interrupted-write tests
+                            ("ph", [("st", "x8", 8), ("st", "x40", 40), ("sta", "y40", 40)], None, None, None)],
                    rams=[], roms=[]),
     # CSR-mapped memories (8-bit rw, 32-bit read-only, 32-bit rw = wider than an 8-bit CSR bus), fixed CSR locations (csr_map and add_csr), interrupts (fixed and automatic numbers)
     "memfix": dict(ctrl=True, timer=True, timer_irq=True,
